@@ -130,6 +130,9 @@ class Engine(object):
                 return VExcClass(attr)
         if modname == 'copy' and attr == 'deepcopy':
             return VCallable(b_deepcopy, 'deepcopy')
+        if modname == 'copy' and attr == 'copy':
+            # trusted: copy.copy(x) == x (a shallow copy of a list/tuple of hops has the same content)
+            return VCallable(lambda i, a, k, f: a[0], 'copy.copy')
         raise Undecided('module attribute %s.%s' % (modname, attr))
 
     def global_name(self, name, fr, interp):
@@ -320,6 +323,8 @@ def b_len(interp, argv, kwv, fr):
         return VInt(v.n)
     if v.kind == 'list' and v.esc:
         return b_len(interp, [interp.esc_target(v)], kwv, fr)
+    if v.kind == 'path':
+        return VInt(v.w.PL(v.c))
     from . import seqs
     return seqs.len_of(interp, v)
 
@@ -341,6 +346,11 @@ def b_list(interp, argv, kwv, fr):
     if not argv:
         return VList([])
     v = argv[0]
+    if v.kind == 'pathkey':
+        from .pathsmodel import VPath
+        return VPath(v.w, v.c)          # list(tuple(path)): a list with the same content
+    if v.kind == 'keyset':
+        return v
     if v.kind == 'bag':
         return v            # list(<generator>): the same elements, each once, in the generator's (unspecified) order
     items = interp.static_items(v)
@@ -473,6 +483,19 @@ def b_make_str(interp, argv, kwv, fr):
     return VOpaque(fresh('str', Obj), 'str')
 
 
+def b_tuple(interp, argv, kwv, fr):
+    from .pathsmodel import VPathKey
+    v = argv[0]
+    if v.kind == 'path':
+        return VPathKey(v.w, v.c)
+    if v.kind == 'pathkey':
+        return v
+    items = interp.static_items(v)
+    if items is None:
+        raise Undecided('tuple() of %s' % v.kind)
+    return VTuple(items)
+
+
 def b_abs(interp, argv, kwv, fr):
     v = argv[0]
     if v.kind == 'int':
@@ -484,7 +507,7 @@ BUILTINS = {
     'isinstance': b_isinstance, 'type': b_type, 'len': b_len, 'range': b_range, 'list': b_list,
     'iter': b_iter, 'int': b_int, 'max': b_max, 'min': b_min, 'sorted': b_sorted, 'sum': b_sum,
     'dict': b_dict, 'super': b_super, 'next': b_next, 'set': b_set, 'zip': b_zip,
-    'enumerate': b_enumerate, 'abs': b_abs, 'defaultdict': b_defaultdict, 'map': b_map, 'make_str': b_make_str,
+    'enumerate': b_enumerate, 'abs': b_abs, 'defaultdict': b_defaultdict, 'map': b_map, 'make_str': b_make_str, 'tuple': b_tuple,
 }
 
 
